@@ -289,9 +289,21 @@ fn gen_c07(seed: u64, tier: Tier) -> ResolvePlan {
 /// still holds (live NS set) while every one of its name servers is inside the
 /// delegated zone and has no usable address left (expired glue)?  Used only to
 /// classify a failure as the known finding about stale glue.
-pub fn depends_on_dead_delegation(plan: &ResolvePlan, q: &QObs) -> bool {
+pub fn depends_on_dead_delegation(plan: &ResolvePlan, obs: &Observations, q: &QObs) -> bool {
     const SEC: u64 = 1_000_000_000;
     let local = resolve_engine::effective_local(plan);
+    // name servers named by referrals received during this very resolution
+    // (their NS sets may be too short-lived to count as cached)
+    let mut referred: Vec<(String, String)> = Vec::new();
+    for e in &obs.exchanges[q.exchanges.clone()] {
+        if let Some(m) = &e.reply {
+            for rr in m.authority.iter().chain(m.answers.iter()) {
+                if let RecordTypeWithData::NS { nsdname } = &rr.rtype_with_data {
+                    referred.push((rr.name.to_dotted_string(), nsdname.to_dotted_string()));
+                }
+            }
+        }
+    }
     let live_ns = |owner: &str| -> Vec<String> {
         let mut hosts: Vec<String> = q
             .cache_after
@@ -342,6 +354,11 @@ pub fn depends_on_dead_delegation(plan: &ResolvePlan, q: &QObs) -> bool {
                     if !needed.contains(&h) {
                         needed.push(h);
                     }
+                }
+            }
+            for (owner, h) in &referred {
+                if universe::names_equal(owner, &a) && !needed.contains(h) {
+                    needed.push(h.clone());
                 }
             }
             anc = universe::parent(&a);
@@ -456,7 +473,7 @@ fn oracle_c07(plan: &ResolvePlan, obs: &Observations) -> RunResult {
             }
         }
         let detail = || json!({ "exchanges": exchange_summary(obs, q) });
-        let dead = q.result.is_err() && depends_on_dead_delegation(plan, q);
+        let dead = q.result.is_err() && depends_on_dead_delegation(plan, obs, q);
         compare_with_expected(&plan.universe, q, dead, &mut res.violations, &detail);
         // bounded liveness: no timeout in a fault-free run
         let n_ex = q.exchanges.len() as u64;
@@ -1368,7 +1385,7 @@ fn oracle_c10(plan: &ResolvePlan, obs: &Observations) -> RunResult {
                 let nothing_local = !q.recursive && ref_chain.is_empty();
                 let byzantine = !plan.knobs.upstream_fault_kinds.is_empty();
                 if !cyclic && !nothing_local && !byzantine && ref_chain.len() <= 25 {
-                    let dead = depends_on_dead_delegation(plan, q);
+                    let dead = depends_on_dead_delegation(plan, obs, q);
                     res.violations.push(
                         Violation::new("c10.short_chain_failed")
                             .fact("dead_delegation_in_cache", dead)
